@@ -108,6 +108,7 @@ type vCluster struct {
 	release    chan struct{} // ... until the driver has submitted everything
 	inFlightOnWire int
 	maxOnWire  int
+	multiFault bool // a second per-partition fault may hit the second partition of the same request
 }
 
 func vNewCluster(conf *Config, nBrokers, nParts, faults int) *vCluster {
@@ -251,12 +252,21 @@ func (cl *vCluster) produce(b *Broker, req *ProduceRequest) (*ProduceResponse, e
 			cl.faultKinds += vItoa(int64(kind))
 		}
 	}
+	kind2 := vfNone
 	rec := vReqRec{broker: b.id, perPart: map[int32][]byte{}}
 	// deterministic partition order
 	var parts []int32
 	for p := int32(0); int(p) < cl.nParts; p++ {
 		if _, ok := req.records["t"][p]; ok {
 			parts = append(parts, p)
+		}
+	}
+	if cl.multiFault && len(parts) >= 2 && cl.faultsLeft > 0 && kind != vfNone && kind != vfConnBefore && kind != vfConnAfter {
+		// the broker answers per partition: the second partition of the request may fail too, differently
+		kind2 = []int{vfNone, vfRetriable, vfRetriableApp, vfFatal, vfLeaderMove, vfMissingBlock}[vChoose("fault2", 6)]
+		if kind2 != vfNone {
+			cl.faultsLeft--
+			cl.faultKinds += "+" + vItoa(int64(kind2))
 		}
 	}
 	if kind == vfConnBefore {
@@ -271,28 +281,34 @@ func (cl *vCluster) produce(b *Broker, req *ProduceRequest) (*ProduceResponse, e
 		rec.perPart[p] = ids
 		rec.nMsgs += len(ids)
 		blk := &ProduceResponseBlock{}
-		faulty := i == 0 // a per-partition fault hits the first partition of the request
+		// a per-partition fault hits the first partition of the request (kind2: the second)
+		k := vfNone
+		if i == 0 {
+			k = kind
+		} else if i == 1 {
+			k = kind2
+		}
 		wrongLeader := cl.brokers[cl.leader[p]] != b
 		switch {
 		case wrongLeader:
 			blk.Err = ErrNotLeaderForPartition
-		case faulty && kind == vfRetriable:
+		case k == vfRetriable:
 			blk.Err = ErrNotEnoughReplicas
-		case faulty && kind == vfFatal:
+		case k == vfFatal:
 			blk.Err = ErrMessageSizeTooLarge
-		case faulty && kind == vfLeaderMove:
+		case k == vfLeaderMove:
 			blk.Err = ErrNotLeaderForPartition
 			cl.leader[p] = (cl.leader[p] + 1) % len(cl.brokers)
 		default:
 			base, kerr := cl.appendBatch(p, ids, pid, epoch, firstSeq)
 			blk.Err = kerr
 			blk.Offset = base
-			if faulty && kind == vfRetriableApp && kerr == ErrNoError {
+			if k == vfRetriableApp && kerr == ErrNoError {
 				blk.Err = ErrRequestTimedOut
 				blk.Offset = -1
 			}
 		}
-		if !(faulty && kind == vfMissingBlock) {
+		if k != vfMissingBlock {
 			resp.Blocks["t"][p] = blk
 		}
 	}
